@@ -448,7 +448,8 @@ func replayObligation(c *Ctx, vd, repo, prop string, ob *Obligation, drivers []D
 	return writeReplay(vd, prop, ob.Name, content), found
 }
 
-// tryDrivers runs the replay driver registered for the obligation, if any.
+// tryDrivers runs the replay drivers registered for the obligation, in order, until one
+// produces a failing execution on the real code.
 func tryDrivers(vd, repo, obName string, drivers []Driver, scratch string, content map[string]interface{}) bool {
 	found := false
 	for _, d := range drivers {
@@ -466,13 +467,14 @@ func tryDrivers(vd, repo, obName string, drivers []Driver, scratch string, conte
 				fails = fails[:10]
 			}
 			content["failing_inputs"] = fails
-		} else {
-			if len(dout) > 2000 {
-				dout = dout[len(dout)-2000:]
-			}
-			content["driver_output_tail"] = dout
+			delete(content, "driver_output_tail")
+			break
 		}
-		break
+		// no failing execution from this driver: try the next one registered for the obligation
+		if len(dout) > 2000 {
+			dout = dout[len(dout)-2000:]
+		}
+		content["driver_output_tail"] = dout
 	}
 	if !found {
 		content["evidence"] = "none"
